@@ -115,7 +115,7 @@ def fam_ops(tier, seed):
         ts = trees(sz)
         if sz == 4:
             # ~7 000 trees: a seeded sample (the thorough tier takes ten times more)
-            ts = rnd.sample(ts, 150 if tier == "quick" else 1500)
+            ts = rnd.sample(ts, min(len(ts), 150 if tier == "quick" else 1500))
         for n, t in ts:
             re = t if not nullable(t, env) else ("cat", t, C("z"))
             lets = [("v", V_DEF)] if uses_var(t) else []
@@ -630,6 +630,22 @@ def fam_builtins(tier, seed):
         cat(alt(B("whitespace"), C("_")), C("3"))))))
     out.append(Witness("builtins_two_large", "builtins", Def(top=rules(
         cat(B("uppercase"), C("1")), cat(B("lowercase"), C("2")), cat(B("numeric"), C("3"))))))
+    # a literal that is also a member of the class, in the same state: first / last character of a
+    # range of the class, for guard-chain and search-table shapes
+    members = {
+        "ascii_hexdigit": "09afAF", "ascii_digit": "09", "ascii_lowercase": "az", "ascii_uppercase": "AZ",
+        "ascii_alphabetic": "azAZ", "ascii_alphanumeric": "09azAZ", "ascii_whitespace": "\t\r ",
+        "whitespace": "\t\r " + chr(0x85) + chr(0x3000), "ascii_punctuation": "!/:@[`{~",
+        "alphabetic": "azAZ" + chr(0xAA) + chr(0xD6), "uppercase": "AZ" + chr(0xC0) + chr(0xD6),
+        "lowercase": "az" + chr(0xDF) + chr(0xF6), "numeric": "09" + chr(0xB2) + chr(0xB3),
+        "XID_Start": "azAZ", "XID_Continue": "09azAZ_", "control": chr(0) + chr(0x1F) + chr(0x7F) + chr(0x9F),
+        "ascii_control": chr(0) + chr(0x1F) + chr(0x7F), "ascii_graphic": "!~", "ascii": chr(0) + chr(0x7F),
+        "alphanumeric": "09azAZ",
+    }
+    for b in BUILTINS:
+        for i, ch in enumerate(members[b]):
+            out.append(Witness("builtins_%s_lit%d" % (b, i), "builtins", Def(top=rules(
+                plus(B(b)), cat(C(ch), C("#")), C("#")))))
     if tier == "thorough":
         for b in LARGE_BUILTINS:
             # terminal target: one match arm per range
